@@ -133,6 +133,10 @@ def child(boundscheck: bool) -> Child:
     c = _CHILDREN.get(key)
     if c is None or c.p.poll() is not None:
         c = _CHILDREN[key] = Child(boundscheck)
+        # the first request of an interpreter loads (or compiles) the engine: it is a warm-up, so that the time limit and
+        # the CPU measure of every judged request are about the request alone
+        m = {"shr": [[0, 2], [0, 2], [0, 2]], "idx": [0, 1, 2], "off": [0, 0, 0], "props": [[[0, 1, 2], "alldifferent", []]]}
+        c.request({"model": m, "cfg": dict(gen.DEFAULT_CONFIG), "mode": ["find_all"]})
     return c
 
 
@@ -179,6 +183,8 @@ def run(ch: Choices, focus: str = "C16", params: Optional[dict] = None) -> dict:
 
     opts = e1_engine.focus_opts(focus, ch, known, params)
     model = gen.gen_model(ch, opts)
+    # magnitude: parameters of the linear constraints near the top of the documented 32 bits (gen.magnify)
+    model = gen.magnify(ch, model, out["probes"])
     out["model"] = gen.render_model(model)
     md = {k: model[k] for k in ("shr", "idx", "off", "props")}
     out["model_dict"] = md
@@ -301,8 +307,11 @@ def judge(model, mode, ref, ans, viol, ctx, out):
         if st and st.get("SOLVER_SOLUTION_NB") != len(sols):
             viol("C17", "counter-SOLVER_SOLUTION_NB", ctx + f"SOLVER_SOLUTION_NB = {st.get('SOLVER_SOLUTION_NB')} but {len(sols)} solutions delivered")
     elif mode[0] == "partial":
-        if len(set(sols)) != len(sols):
-            viol("C02", "duplicate-in-partial", ctx + f"first {len(sols)} solutions contain a duplicate: {sols}")
+        # an assignment of the variables is delivered once per assignment of the shared domains that gives it (a shared
+        # domain that no variable refers to multiplies it): more copies than the reference has is a duplicate
+        over = [s for s in set(sols) if sols.count(s) > ref.count(s) and s in ref]
+        if over:
+            viol("C02", "duplicate-in-partial", ctx + f"first {len(sols)} solutions contain {over[0]} {sols.count(over[0])} times, the reference has it {ref.count(over[0])} time(s): {sols}")
         if len(sols) < min(mode[1], len(ref)):
             viol("C02", "partial-too-few", ctx + f"asked for {mode[1]} solutions, got {len(sols)}, reference has {len(ref)}")
     else:
